@@ -235,6 +235,27 @@ func c06(c *Ctx) {
 			if et == 16 || et == 23 {
 				bs = 8
 			}
+			// bytes inserted or removed INSIDE: at every block boundary and just before the trailing checksum
+			macLen := map[int32]int{16: 20, 17: 12, 18: 12, 19: 16, 20: 24, 23: 0}[et]
+			var cuts []int
+			for p := 0; p <= len(ct); p += bs {
+				cuts = append(cuts, p)
+			}
+			if macLen > 0 && len(ct) >= macLen {
+				cuts = append(cuts, len(ct)-macLen)
+			}
+			for ci, p := range cuts {
+				for _, n := range []int{1, bs - 1, bs} {
+					junk := make([]byte, n)
+					c.R.Read(junk)
+					ins := append(append(append([]byte{}, ct[:p]...), junk...), ct[p:]...)
+					reject("insert", ins, key, usage, (ci+n)%4 == 0)
+					if p+n <= len(ct) {
+						del := append(append([]byte{}, ct[:p]...), ct[p+n:]...)
+						reject("delete", del, key, usage, (ci+n)%4 == 1)
+					}
+				}
+			}
 			if len(ct) >= 3*bs {
 				sw := append([]byte{}, ct...)
 				copy(sw[0:bs], ct[bs:2*bs])
